@@ -776,3 +776,58 @@ def rule_divless(ctx, R):
 
 RULES.append(("C05.DIVLESS", "bitwise quotient search of div_core; magnitude comparison of less_core", rule_divless))
 RULES.append(("C05.LIMBS", "carry, borrow and partial-product loops conserve the value on every path of an iteration; normalisation; digit ranges", rule_limbs))
+
+
+def _array_literals(b):
+    """constant array aggregates written in a body (the contents of vec![..] literals)"""
+    out = []
+    for blk in b.blocks:
+        if blk["cleanup"]:
+            continue
+        for st in blk["stmts"]:
+            if st["k"] == "assign" and st["r"]["k"] == "agg" and st["r"].get("agg") == "array":
+                vals = [int(f["int"]) if f.get("k") == "const" and "int" in f else None for f in st["r"]["fields"]]
+                out.append(vals)
+    return out
+
+
+def rule_consts(ctx, R):
+    """the constants and one-line predicates everything else is written in terms of"""
+    fb = ctx.fb
+    want = {
+        B + "one": ("BigNum::BigNum{K1,", [[1]], "one() is +1: non-negative flag, the single limb 1"),
+        B + "zero": ("BigNum::BigNum{K1,", [[0]], "zero() is +0: non-negative flag, the single limb 0"),
+    }
+    for n, (prefix, lits, desc) in want.items():
+        b = fb.bodies.get(n)
+        if not R.anchor(b is not None, n, n):
+            continue
+        R.analyse(n)
+        r = Roles(b, fb)
+        cfg = normal_cfg(b)
+        rets = sorted({r.of_origin(r.org.of_place({"l": 0, "proj": []}, x, "t")) for x in cfg.returns})
+        R.check(len(rets) == 1 and rets[0].startswith(prefix) and _array_literals(b) == lits, "consts:%s" % n.rsplit("::", 1)[-1], "%s: %s %s" % (desc, rets, _array_literals(b)), b.span)
+    simple = {
+        B + "is_pos": (["P1.pos"], None, "is_pos reads the sign flag"),
+        B + "to_int": (["Index::index(P1.val,K0)"], None, "to_int is the lowest limb"),
+        B + "is_zero": (None, [[0]], "is_zero compares the limbs with [0] (the normalised zero)"),
+        "number::num::Num::one": (["Num::Num{BigNum::one(),BigNum::one()}"], None, "Num::one is 1/1"),
+        "number::num::Num::zero": (["Num::Num{BigNum::zero(),BigNum::one()}"], None, "Num::zero is 0/1"),
+        "number::num::Num::nan": (["Num::Num{BigNum::one(),BigNum::zero()}"], None, "NaN is 1/0"),
+        "number::num::Num::from_num": (["Num::Num{BigNum::new(P1),BigNum::one()}"], None, "from_num(n) is n/1"),
+    }
+    for n, (rets_w, lits, desc) in simple.items():
+        b = fb.bodies.get(n)
+        if not R.anchor(b is not None, n, n):
+            continue
+        R.analyse(n)
+        r = Roles(b, fb, param_roles=PR(b))
+        cfg = normal_cfg(b)
+        rets = sorted({r.of_origin(r.org.of_place({"l": 0, "proj": []}, x, "t")) for x in cfg.returns})
+        ok = (rets_w is None or rets == rets_w) and (lits is None or _array_literals(b) == lits)
+        if n.endswith("is_zero"):
+            ok = ok and len(rets) == 1 and rets[0].startswith("PartialEq::eq(P1.val,")
+        R.check(ok, "consts:%s" % n.rsplit("::", 1)[-1], "%s: %s" % (desc, rets), b.span)
+
+
+RULES.append(("C05.CONSTS", "the constants and predicates the arithmetic is written in: one, zero, is_zero, is_pos, to_int (and Num's one, zero, nan, from_num)", rule_consts))
